@@ -1031,3 +1031,46 @@ def split_conditional_returns(prog: Program) -> list[str]:
         if T.count > before:
             log.append(f"{mod.name}: {T.count - before} conditional return(s) split")
     return log
+
+
+# ---------------------------------------------------------------------------------------------- the two CancelledError classes
+FOREIGN_CANCELLED = "FuturesCancelledError"
+
+
+def distinguish_cancelled_errors(prog: Program) -> list[str]:
+    """asyncio.CancelledError (a BaseException: what Task.cancel() throws) and concurrent.futures.CancelledError (an
+    Exception since 3.8) are different classes with the same name.  Every analysis names exception classes by their
+    last component, so a reference that does not resolve to asyncio's class is renamed to FuturesCancelledError
+    (hwverif.cfg knows it as an Exception); an alias of asyncio's class is renamed to CancelledError."""
+    log: list[str] = []
+    for mod in prog.modules.values():
+        ren: dict[str, str] = {}
+        for node in ast.walk(mod.tree):
+            if isinstance(node, ast.ImportFrom) and not node.level:
+                for alias in node.names:
+                    if alias.name != "CancelledError":
+                        continue
+                    local = alias.asname or alias.name
+                    own = (node.module or "").split(".")[0] == "asyncio"
+                    if own and local != "CancelledError":
+                        ren[local] = "CancelledError"
+                        alias.asname = None
+                    elif not own:
+                        ren[local] = FOREIGN_CANCELLED
+                        alias.name, alias.asname = FOREIGN_CANCELLED, None
+        count = 0
+        for node in ast.walk(mod.tree):
+            if isinstance(node, ast.Name) and node.id in ren:
+                node.id = ren[node.id]
+                count += 1
+            elif isinstance(node, ast.Attribute) and node.attr == "CancelledError":
+                root = node.value
+                while isinstance(root, ast.Attribute):
+                    root = root.value
+                if isinstance(root, ast.Name) and root.id in mod.imports and mod.imports[root.id].split(".")[0] != "asyncio":
+                    node.attr = FOREIGN_CANCELLED
+                    count += 1
+        if count:
+            log.append(f"{mod.name}: {count} reference(s) to a CancelledError class renamed by the class they resolve to")
+    return log
+
